@@ -22,6 +22,10 @@ type FaultBody struct {
 	Fault  *Fault // nil: none
 	Cancel context.CancelFunc
 	OnRead func(n int, err error) // optional observer / yield point
+	// EOFWithLast: the healthy end of the stream is reported together with the
+	// last bytes (n > 0, io.EOF), as net/http does for bodies of announced
+	// length, instead of by a separate (0, io.EOF)
+	EOFWithLast bool
 
 	off        int
 	silentDone bool
@@ -116,6 +120,10 @@ func (b *FaultBody) Read(p []byte) (n int, err error) {
 	}
 	copy(p, b.Data[b.off:b.off+n])
 	b.off += n
+	if b.EOFWithLast && b.off == len(b.Data) && (b.Fault == nil || b.Fault.Kind == "cancel-silent") {
+		b.SawEOF = true
+		return n, io.EOF
+	}
 	return n, nil
 }
 
